@@ -87,6 +87,31 @@ def drive(rec, part, ms, quick):
                 rec.violation("%s m=%d wrote outside its output" % (fn, m), {})
                 continue
             emit("from_znx64", fn, m, [to_words(int(v), 4) for v in xs], [to_words(int(v), 4) for v in R.i64], {}, mask)
+        # ---------------- from_znx64 with every declared bound 0..50 (the table may pick a kernel by the bound): |x| < 2^bound
+        if m in (4, 16, 64):
+            for b in range(0, 51):
+                top = (1 << b) - 1
+                vals = [0, top, -top, top - 1 if top else 0, (1 << b) >> 1, -((1 << b) >> 1), ((1 << b) >> 1) + 1 if b > 1 else 0] + \
+                       [rng.randrange(-top, top + 1) for _ in range(n)]
+                xs = fill(vals, n, rng)
+                for (fn, how, mask) in [("reim_from_znx64", "dispatch", MASK_NONE), ("reim_from_znx64", "dispatch", MASK_GENERIC),
+                                        ("reim_from_znx64_simple", "simple", MASK_NONE)]:
+                    if how == "simple" and b % 5 != part % 5:
+                        continue
+                    X, R = Buf(8 * n, off=rng.choice([0, 8, 24])), Buf(8 * n, fill=0xEE, off=rng.choice([0, 8, 24]))
+                    X.i64[:] = xs
+                    if not rec.progress("%s m=%d mask=%d log2bound=%d" % (fn, m, mask, b)):
+                        continue
+                    if how == "simple":
+                        L.fn(fn, "v wwpp")(m, b, R.addr, X.addr)
+                    else:
+                        t = tables.get("new_reim_from_znx64_precomp", m, mask, ("w", b))
+                        L.fn(fn, "v ppp")(t, R.addr, X.addr)
+                    rec.case(("from_znx64", fn, m, mask, "bound", b))
+                    if not (X.canaries_ok() and R.canaries_ok()):
+                        rec.violation("%s m=%d log2bound=%d wrote outside its output" % (fn, m, b), {})
+                        continue
+                    emit("from_znx64", fn, m, [to_words(int(v), 4) for v in xs], [to_words(int(v), 4) for v in R.i64], {"log2bound": b}, mask)
         # ---------------- to_znx64
         # bounds on both sides of the kernel threshold (50) and next to it; consecutive cases share m and often the divisor, so that the
         # thread-local table of the _simple form is re-keyed on the bound alone and on the divisor alone
